@@ -14,6 +14,7 @@ import (
 	"io"
 	mathrand "math/rand"
 	"os/exec"
+	"slices"
 	"strconv"
 	"strings"
 
@@ -162,6 +163,35 @@ func appendFlags(w io.Writer, forBuildHash bool) {
 	if literals.TestObfuscator != "" && forBuildHash {
 		io.WriteString(w, literals.TestObfuscator)
 	}
+	if flagLiterals && forBuildHash {
+		// With -literals, the variables targeted by -ldflags=-X are left alone when
+		// compiling their package, so the set of targets is a build input.
+		// The go command only re-links when -ldflags change, so it must be in our hash.
+		for _, name := range linkerVariableNames() {
+			io.WriteString(w, " -X=")
+			io.WriteString(w, name)
+		}
+	}
+}
+
+// linkerVariableNames returns the sorted "importpath.name" targets of all -X flags
+// in the -ldflags given to the top-level command.
+func linkerVariableNames() []string {
+	if sharedCache == nil {
+		return nil
+	}
+	ldflags, err := cmdgoQuotedSplit(flagValue(sharedCache.ForwardBuildFlags, "-ldflags"))
+	if err != nil {
+		return nil // reported later by computeLinkerVariableStrings
+	}
+	var names []string
+	for val := range flagValues(ldflags, "-X") {
+		if name, _, found := strings.Cut(val, "="); found {
+			names = append(names, name)
+		}
+	}
+	slices.Sort(names)
+	return slices.Compact(names)
 }
 
 func buildidOf(path string) (string, error) {
